@@ -112,6 +112,8 @@ GRAPH_WITNESS_STREAM = dict(
 
 for _p in CONTAINER_PROPS:
     PROPS[_p] = dict(streams=[CORE_STREAM, WITNESS_STREAM])
+for _p in ('C05', 'C06'):   # container-level clauses: Build's verdict and singleton creation order
+    PROPS[_p]['streams'] = PROPS[_p]['streams'] + [CORE_STREAM]
 for _p in ('C05', 'C06', 'C17'):
     PROPS[_p]['streams'] = PROPS[_p]['streams'] + [WITNESS_STREAM]
 for _p in ('C19', 'C06'):
